@@ -9,6 +9,9 @@ ARITH = {'Add', 'Sub', 'Mul', 'Div', 'Rem', 'AddWithOverflow', 'SubWithOverflow'
 SHIFT = {'Shl', 'Shr', 'ShlUnchecked', 'ShrUnchecked'}
 DENY_METHOD = re.compile(r'^core::num::<impl (i|u)(8|16|32|64|128|size)>::(wrapping_\w+|overflowing_\w+|saturating_\w+|unchecked_\w+|unbounded_\w+|rotate_\w+|cast_signed|cast_unsigned)$')
 DENY_DECIMAL = re.compile(r'^rust_decimal::Decimal::(saturating_\w+|wrapping_\w+)$')
+# a Decimal leaving the decimal domain by a truncating / wrapping route
+LOSSY_CONV = re.compile(r'(ToPrimitive>?::to_(i|u)(8|16|32|64|128|size)$|^rust_decimal::Decimal::(mantissa|trunc|trunc_with_scale|floor|ceil|round|round_dp\w*|unpack|serialize)$)')
+INTEGRAL_TESTS = {'rust_decimal::Decimal::is_integer'}
 
 INT_BITS = {'8': 8, '16': 16, '32': 32, '64': 64, '128': 128, 'size': 64}
 
@@ -27,6 +30,25 @@ def _narrowing(frm, to):
             return True
         if sf and not st:
             return True
+    return False
+
+
+def _integral_guard(body, c):
+    from r_panic import bool_source, edge_dominates, switch_edges
+    for sb in sorted(body.live_blocks):
+        t = body.blocks[sb]['term']
+        if t['k'] != 'switch':
+            continue
+        src = bool_source(body, t['discr'])
+        if src is None:
+            continue
+        tc, parity = src
+        if (tc.rdef or tc.callee) in INTEGRAL_TESTS:
+            listed = [v for v, _ in t['targets']]
+            for v, tb in switch_edges(body, sb):
+                tv = (1 if listed == [0] else 0 if listed == [1] else None) if v == 'otherwise' else (1 if v != 0 else 0)
+                if tv is not None and (tv ^ parity) == 1 and edge_dominates(body, sb, tb, c.bb):
+                    return True
     return False
 
 
@@ -66,6 +88,12 @@ def rule_nowrap(bodies, rule='NOWRAP'):
                                    '%s:%d' % (sp.get('file', '?'), sp.get('line', 0)), body=body.name, bb=b))
         for c in body.live_calls:
             nme = c.rdef or c.callee or ''
+            if (LOSSY_CONV.search(nme) or LOSSY_CONV.search(c.callee or '')) and c.fn and any('rust_decimal::Decimal' in a for a in c.fn.get('args', []) + c.term['arg_tys']):
+                if not _integral_guard(body, c):
+                    k = cnt.get(nme, 0); cnt[nme] = k + 1
+                    obs.append(bad(rule, '%s|%s|lossy:%s|#%d' % (rule, body.name, nme.split('::')[-1], k),
+                                   '%s drops the fractional part / high bits of a Decimal without a dominating is_integer() test: a non-integral or out-of-range number is silently truncated' % nme, c.where(), body=body.name, bb=c.bb))
+                continue
             if DENY_METHOD.match(nme) or DENY_METHOD.match(c.callee or '') or DENY_DECIMAL.match(nme):
                 k = cnt.get(nme, 0); cnt[nme] = k + 1
                 obs.append(bad(rule, '%s|%s|call:%s|#%d' % (rule, body.name, nme, k), '%s silently wraps / saturates / masks' % nme, c.where(), body=body.name, bb=c.bb))
